@@ -839,6 +839,46 @@ class IeeeEval:
             sign = None if a.sign is None or b.sign is None else a.sign * b.sign
             cls = "inf" if "inf" in (a.cls, b.cls) else "zero" if "zero" in (a.cls, b.cls) else "fin"
             return FV(cls, sign)
+        if isinstance(e, ast.BinOp) and isinstance(e.op, (ast.Add, ast.Sub)):
+            a, b = self.ev(e.left), self.ev(e.right)
+            if isinstance(e.op, ast.Sub):
+                b = FV(b.cls, None if b.sign is None else -b.sign)
+            if a.cls == "nan" or b.cls == "nan":
+                return FV("nan", None)
+            if a.cls == "inf" or b.cls == "inf":
+                if a.cls == b.cls == "inf":
+                    if a.sign is None or b.sign is None:
+                        raise IeeeTop("inf + inf of unknown signs")
+                    return FV("inf", a.sign) if a.sign == b.sign else FV("nan", None)
+                return a if a.cls == "inf" else b
+            if a.cls == b.cls == "zero":
+                if a.sign is None or b.sign is None:
+                    raise IeeeTop("sum of zeros of unknown sign")
+                return FV("zero", a.sign if a.sign == b.sign else 1)  # round-to-nearest: (+0) + (-0) = +0
+            if a.cls == "zero":
+                return b
+            if b.cls == "zero":
+                return a
+            if a.sign is not None and a.sign == b.sign:
+                return FV("fin", a.sign)  # overflow to inf is not modelled: the value classes used never add two finite operands
+            raise IeeeTop(f"sum of finite values of opposite sign: {ast.unparse(e)[:40]}")
+        if isinstance(e, ast.Call) and isinstance(e.func, ast.Attribute) and e.func.attr in ("__neg__", "__pos__", "__abs__"):
+            # super().__neg__() / float.__neg__(x) / x.__neg__()
+            recv = e.func.value
+            arg: Optional[FV] = None
+            if isinstance(recv, ast.Call) and dotted(recv.func) == "super" and not e.args:
+                selfname = self.fn.args.args[0].arg if self.fn.args.args else None
+                arg = self.env.get(selfname) if selfname else None
+            elif dotted(recv) in ("float", "builtins.float") and len(e.args) == 1:
+                arg = self.ev(e.args[0])
+            elif not e.args:
+                arg = self.ev(recv)
+            if arg is not None:
+                if e.func.attr == "__pos__":
+                    return arg
+                if e.func.attr == "__abs__":
+                    return FV(arg.cls, 1)
+                return FV(arg.cls, None if arg.sign is None else -arg.sign)
         if isinstance(e, ast.Call):
             d = (dotted(e.func) or "").split(".")[-1]
             if d == "copysign" and len(e.args) == 2:
